@@ -194,3 +194,22 @@ Lemma cmd_name_last docgen name aliases shorts help adjacent m i run s c s1 :
    (s1, Some (mkCst [CoCommand (mkExtra (depth s1) None (help_completion docgen help)) (chars_of name) (hd_error shorts)]
                     (cs_rev c) (cs_nopos c)))).
 Proof. intros Ht Hl. unfold c_cmd_body. rewrite Ht, Hl. reflexivity. Qed.
+
+(* a subcommand that is not entered contributes its name and nothing else: names that belong only to it are not
+   among the hints *)
+Lemma cmd_not_entered docgen name aliases shorts help adjacent m i run s k s1 :
+  take_cmd_any ((name :: aliases) ++ map utf8_encode_char shorts) s = (false, s1) ->
+  snd (snd (c_cmd_body docgen name aliases shorts help adjacent m i run (s, k))) =
+  kpush (CoCommand (mkExtra (depth s1) None (help_completion docgen help)) (chars_of name) (hd_error shorts)) k.
+Proof. intros Ht. unfold c_cmd_body. rewrite Ht. reflexivity. Qed.
+
+(* group_help: the hints collected before stay, the hints of the inner parser follow with the group's title (unless
+   they carry one already) *)
+Lemma group_help_titles docgen cev d s c r s' c' :
+  cev (s, Some (mkCst [] (cs_rev c) (cs_nopos c))) = (r, (s', Some c')) ->
+  c_group_help_body docgen cev d (s, Some c) =
+  (r, (s', Some (mkCst (cs_comps c ++ match to_completion docgen d with
+                                      | Some g => map (set_group g) (cs_comps c')
+                                      | None => cs_comps c'
+                                      end) (cs_rev c') (cs_nopos c')))).
+Proof. intros E. unfold c_group_help_body. cbn [kswap]. rewrite E. reflexivity. Qed.
